@@ -1180,24 +1180,30 @@ impl ElementRaw {
         chardata: CharacterData,
         version: AutosarVersion,
     ) -> Result<(), AutosarDataError> {
-        if self.elemtype.content_mode() == ContentMode::Characters
-            || (self.elemtype.content_mode() == ContentMode::Mixed && self.content.len() <= 1)
-        {
-            if let Some(cdata_spec) = self.elemtype.chardata_spec() {
-                if CharacterData::check_value(&chardata, cdata_spec, version) {
-                    // update the character data
-                    if self.content.is_empty() {
-                        self.content.push(ElementContent::CharacterData(chardata));
-                    } else {
-                        self.content[0] = ElementContent::CharacterData(chardata);
-                    }
-                    return Ok(());
-                }
+        if self.accepts_character_data(&chardata, version) {
+            // update the character data
+            if self.content.is_empty() {
+                self.content.push(ElementContent::CharacterData(chardata));
+            } else {
+                self.content[0] = ElementContent::CharacterData(chardata);
             }
+            return Ok(());
         }
         Err(AutosarDataError::IncorrectContentType {
             element: self.element_name(),
         })
+    }
+
+    /// check if set_character_data would accept the given value, without changing anything
+    pub(crate) fn accepts_character_data(&self, chardata: &CharacterData, version: AutosarVersion) -> bool {
+        if self.elemtype.content_mode() == ContentMode::Characters
+            || (self.elemtype.content_mode() == ContentMode::Mixed && self.content.len() <= 1)
+        {
+            if let Some(cdata_spec) = self.elemtype.chardata_spec() {
+                return CharacterData::check_value(chardata, cdata_spec, version);
+            }
+        }
+        false
     }
 
     /// get the character content of the element
